@@ -316,6 +316,22 @@ def nested_identity(ctx, i):
     if oa.exc is not None or oa.status != "completed":
         ctx.inconc(f"nested auto-answering run did not complete: {oa.status} {oa.exc!r}")
         return
+    # values computed INSIDE the nested graph in steps before the interrupt's step are values computed before the pause:
+    # every wrapper exposes them (no selection here), so the PAUSED result carries them - with the values the
+    # auto-answered run gives them (they do not depend on the answer)
+    try:
+        Rin = ref.ref_eval(inner, {r: f"run:{r}" for r in ref.ref_inputs(inner)[0]})
+        lvl_int = Rin.level.get(ints[0])
+    except ref.Ambiguous:
+        lvl_int = None
+    if lvl_int is not None:
+        early = [e for ns in inner["nodes"] if ns["name"] != ints[0] and Rin.level.get(ns["name"]) is not None and Rin.level[ns["name"]] < lvl_int for e in ref.data_output_names(ns)]
+        for e in early:
+            if e in oa.values:
+                ctx.obs["nested_pre_pause_values_checked"] += 1
+                if e not in (o.values or {}) or o.values[e] != oa.values[e]:
+                    ctx.violation("C14:computed-value-missing:inside-nested-graph", f"{e} was computed inside the nested graph before {want_name} paused (an exposed output of the wrapper), but the PAUSED result's values are {core.short(o.values)}", case)
+                    break
     cur = dict(inputs)
     fm = ref.forward_map(list(ins["outs"]), ins.get("rename_out"))
     back = {v: k for k, v in fm.items()}
